@@ -3,3 +3,6 @@ open GoguVerif.Theorems.GenTieMore
 #print axioms duplicate_tie
 #print axioms zip_tie
 #print axioms unzip_tie
+#print axioms findMinByKey_tie
+#print axioms findMaxByKey_tie
+#print axioms toSlice_tie
